@@ -15,7 +15,18 @@ from common import cbool, clist
 
 THEORY = "C11"
 VARIANTS = ["sleep", "getsig", "getsig_timed", "loop"]
-COQ_VARIANT = {"sleep": "VSleep", "getsig": "VGetSig", "getsig_timed": "VGetSigTimed", "loop": "VLoop"}
+COQ_VARIANT = {"sleep": "VSleep", "getsig": "VGetSig", "getsig_timed": "VGetSigTimed", "loop": "VLoop",
+               "getsig_reader": "VGetSigReader", "getsig_timed_reader": "VGetSigTimedReader"}
+
+
+def scenario_lines(s, variant, env, stopper_delay, n_signals):
+    """Same scenario with every source line of the protocol functions as an additional scheduling point."""
+    import qmi.core.task as T
+    import qmi.core.pubsub as P
+    dsched.enable_line_yields([T._TaskThread.stop_task, T._TaskThread.wait_for_condition, P._wait_for_condition,
+                               T.QMI_Task.sleep, P.QMI_SignalReceiver.get_next_signal, P.QMI_SignalReceiver._receive_signal,
+                               T.QMI_LoopTask.run, T.QMI_Task.stop_requested])
+    return scenario(s, variant, env, stopper_delay, n_signals)
 
 
 def scenario(s, variant, env, stopper_delay, n_signals):
@@ -79,7 +90,9 @@ def scenario(s, variant, env, stopper_delay, n_signals):
             obs["fin"] = True
             obs["t_release"] = s.clock
 
-    cls = {"sleep": SleepTask, "getsig": GetSigTask, "getsig_timed": GetSigTimedTask, "loop": LoopTask}[variant]
+    reader = variant.endswith("_reader")
+    cls = {"sleep": SleepTask, "getsig": GetSigTask, "getsig_timed": GetSigTimedTask, "loop": LoopTask,
+           "getsig_reader": GetSigTask, "getsig_timed_reader": GetSigTimedTask}[variant]
     kwargs = {"loop_period": 2.0} if variant == "loop" else {}
     th = T._TaskThread(runner, "t", cls, (), kwargs)
     runner._thread = th
@@ -97,11 +110,24 @@ def scenario(s, variant, env, stopper_delay, n_signals):
         for k in range(n_signals):
             recv._receive_signal(P.QMI_SignalMessage(Addr("c", "p"), Addr("c", "$pubsub"), "sig", (k,)))
 
+    def reader_body():
+        # another (non-task) thread waiting on the SAME receiver, without timeout
+        try:
+            recv.get_next_signal(timeout=None)
+            obs["reader"] = "sig"
+        except BaseException as e:  # noqa
+            obs["reader"] = type(e).__name__
+
     ev0 = len(s.events)
     s.recording = True
+    rt = None
+    if reader:
+        rt = real_threading.Thread(target=reader_body, name="reader")
+        rt.start()
+        obs["tids"]["TE"] = s.by_real[rt].tid
     th.start_task()
     obs["tids"]["TW"] = s.by_real[th].tid
-    if env:
+    if env and not reader:
         et = real_threading.Thread(target=env_body, name="env")
         et.start()
         obs["tids"]["TE"] = s.by_real[et].tid
@@ -112,11 +138,16 @@ def scenario(s, variant, env, stopper_delay, n_signals):
     obs["t_stop_returned"] = s.clock
     th.join()
     s.recording = False
+    ev_end = len(s.events)
+    if rt is not None:
+        # release the second reader (outside the modelled window) and collect it
+        recv._receive_signal(P.QMI_SignalMessage(Addr("c", "p"), Addr("c", "$pubsub"), "sig", (99,)))
+        rt.join()
     obs["t_stop"] = t_stop
     obs["joined"] = True
     obs["final_state"] = th.get_state()[0].name
     obs["wc_after"] = th._wait_cond is not None
-    obs["trace"] = [list(e) for e in s.events[ev0:] if e[1] in
+    obs["trace"] = [list(e) for e in s.events[ev0:ev_end] if e[1] in
                     ("acq", "cond.wait", "cond.resume", "ev.set", "ev.is_set", "ev.wait", "ev.resume", "timeout")]
     return obs
 
@@ -187,6 +218,8 @@ def oracle(variant, env, delay, res):
     o = res["obs"]
     if not o.get("joined"):
         return "nojoin", "join() did not return"
+    if variant.endswith("_reader") and o.get("reader") not in ("sig", None):
+        return "reader", "the other reader of the receiver ended with %r" % (o.get("reader"),)
     if variant == "loop":
         if o["run_entered"] and not o["fin"]:
             return "nofinalize", "loop task ended without running loop_finalize"
@@ -228,6 +261,8 @@ def run(ck):
             configs.append((v, True, 0.0, 2))
         if v in ("sleep", "getsig_timed", "loop"):
             configs.append((v, False, 7.0 if v != "loop" else 5.0, 0))   # stop arrives after time-outs
+        if v in ("getsig", "getsig_timed"):
+            configs.append((v + "_reader", False, 0.0, 0))               # a second waiter on the same receiver
     total_runs = 0
     for (v, env, delay, nsig) in configs:
         exhausted = None
@@ -254,6 +289,27 @@ def run(ck):
             tr = to_model_trace(o)
             terms.append(coq_case(v, env, tr, o))
             metas.append((v, env, delay, nsig, res.get("choices"), tr, o.get("outcome")))
+    # line-granularity interleavings inside the protocol functions (random schedules; same oracle and same
+    # trace acceptance: the synchronisation events must still form a path of the model)
+    nline = 40 if ck.tier == "quick" else 600
+    jobs, jmeta = [], []
+    for (v, env, delay, nsig) in configs:
+        for i in range(nline):
+            jobs.append((scenario_lines, (v, env, delay, nsig), dict(strategy="random", seed=ck.seed * 7907 + i, switch_prob=0.5)))
+            jmeta.append((v, env, delay, nsig))
+    for (v, env, delay, nsig), res in zip(jmeta, dsched.run_forked(jobs, nproc=16, wall_timeout=30.0)):
+        ck.note_case((v, env, delay, "lines", tuple(res.get("choices") or ())), True)
+        ck.count("line-level:" + res["status"])
+        bad = oracle(v, env, delay, res)
+        if bad:
+            ck.report("oracle:%s:%s" % (v, bad[0]), "C11 fails on the implementation (%s, env=%s, line-level schedule): %s" % (v, env, bad[1]),
+                      {"variant": v, "env": env, "stopper_delay": delay, "n_signals": nsig, "line_level": True,
+                       "schedule": res.get("choices"), "status": res["status"]})
+            continue
+        o = res["obs"]
+        tr = to_model_trace(o)
+        terms.append(coq_case(v, env, tr, o))
+        metas.append((v, env, delay, nsig, res.get("choices"), tr, o.get("outcome")))
     for m in metas[:2] + metas[-1:]:
         ck.sample({"variant": m[0], "env": m[1], "stopper_delay": m[2], "schedule": m[4],
                    "trace": ["%s:%s" % (t, o) for t, o in m[5]], "outcome": m[6]}, 3)
@@ -273,7 +329,7 @@ def run(ck):
 def replay(rep):
     c = rep["case"]
     import qmi.core.task, qmi.core.pubsub, qmi.core.messaging  # noqa
-    res = dsched.run_forked([(scenario, (c["variant"], c["env"], c["stopper_delay"], c["n_signals"]),
+    res = dsched.run_forked([(scenario_lines if c.get("line_level") else scenario, (c["variant"], c["env"], c["stopper_delay"], c["n_signals"]),
                               dict(strategy="replay", schedule=list(c["schedule"] or [])))], nproc=1)[0]
     print("status:", res["status"], "obs:", {k: v for k, v in (res.get("obs") or {}).items() if k not in ("trace", "names")})
     bad = oracle(c["variant"], c["env"], c["stopper_delay"], res)
